@@ -252,6 +252,13 @@ func DecryptWithEd25519(
 		msgNonce[i] ^= xorHash[(i+2)%len(xorHash)]
 	}
 
+	// the ciphertext starts with msgNonce[:4]: anything else was not produced by
+	// EncryptToEd25519 (the prefix only salts the aes256 key, which is public).
+	if subtle.ConstantTimeCompare(msgNonce[:4], ciphertext[:4]) == 0 {
+		scrub.Scrub(sharedSecret)
+		return nil, errors.New("message nonce prefix does not match message pubkey")
+	}
+
 	// decrypt message with shared secret
 	cipher, err := chacha20poly1305.NewX(sharedSecret)
 	scrub.Scrub(sharedSecret)
